@@ -56,6 +56,15 @@ func (s *slicer) run(roots ...ssa.Value) *sliceResult {
 			if fa, isFA := v.(*ssa.FieldAddr); isFA && s.fieldStop && s.c.inConstTable(fa) {
 				continue // an entry of a package-level table of constants
 			}
+			if fa, isFA := v.(*ssa.FieldAddr); isFA && s.fieldStop && s.c.copyOfConstRow(fa) {
+				continue // a field of a local copy of such an entry (a value receiver spilled to a local)
+			}
+			if fl, isF := v.(*ssa.Field); isF && s.fieldStop {
+				// the same through a copy of the entry (a value receiver, `row := table[i]`)
+				if u, isLoad := fl.X.(*ssa.UnOp); isLoad && u.Op == token.MUL && s.c.inConstTable(u.X) {
+					continue
+				}
+			}
 			if s.fieldStop && strings.HasPrefix(k, ".") {
 				continue // a field of an unnamed struct type (a local row of a table): where its value comes from has been followed
 			}
@@ -796,6 +805,41 @@ func (c *Ctx) ephemeralTypes() map[string]bool {
 		}
 	}
 	return c.ephemeral
+}
+
+// copyOfConstRow: the field belongs to a local variable that is only ever assigned whole entries of constant tables.
+func (c *Ctx) copyOfConstRow(fa *ssa.FieldAddr) bool {
+	al, ok := fa.X.(*ssa.Alloc)
+	if !ok || al.Referrers() == nil {
+		return false
+	}
+	n := 0
+	for _, ref := range *al.Referrers() {
+		switch x := ref.(type) {
+		case *ssa.Store:
+			if x.Addr != ssa.Value(al) {
+				return false
+			}
+			u, isLoad := x.Val.(*ssa.UnOp)
+			if !isLoad || u.Op != token.MUL || !c.inConstTable(u.X) {
+				return false
+			}
+			n++
+		case *ssa.FieldAddr:
+			// stores into single fields make it something else
+			if x.Referrers() != nil {
+				for _, r2 := range *x.Referrers() {
+					if st, isSt := r2.(*ssa.Store); isSt && st.Addr == ssa.Value(x) {
+						return false
+					}
+				}
+			}
+		case *ssa.UnOp, *ssa.DebugRef:
+		default:
+			return false
+		}
+	}
+	return n > 0
 }
 
 // inConstTable: the address lies inside a package-level variable of the module that is only ever written by its package
